@@ -394,8 +394,12 @@ def run_sv(chk, attr, init, ops, oracle=True) -> str:
     obs = [_sv_obs(r, name, view)]
     dirty = False            # the live view was changed since it was last read from the header
     ok = oracle
+    def ci_dup(v):
+        """the items themselves hold two entries equal up to letter case (the known C08 findings)"""
+        return len({x.lower() for x in v._headers}) != len(v._headers)
+
     for n, op in enumerate(ops):
-        ri_before = c08._ri(view)
+        dup_before = ci_dup(view)
         before = list(view._headers)
         try:
             if op[0] == "v":
@@ -428,12 +432,17 @@ def run_sv(chk, attr, init, ops, oracle=True) -> str:
         rr = getattr(r, attr)
         text = r.headers.get(name)
         bad = None
-        if list(rr) != list(view) or rr._set != view._set or len(rr) != len(view):
+        low = {x.lower() for x in view}
+        if len(view) != len(list(view)) or view.as_set() != low or bool(view) != bool(list(view)) \
+                or any((x in view) != (x.lower() in low) for x in list(view) + SV_ITEMS):
+            bad = (f"the live view is inconsistent with itself: iterates {list(view)!r}, len {len(view)}, as_set {sorted(view.as_set())!r}, "
+                   f"membership {[x for x in list(view) + SV_ITEMS if x in view]!r}")
+        elif list(rr) != list(view) or rr._set != view._set or len(rr) != len(view) or rr.as_set() != view.as_set():
             bad = f"re-reading response.{attr} gives {list(rr)!r} (len {len(rr)}), the live view holds {list(view)!r} (len {len(view)}); header {text!r}"
         elif dirty and text != (view.to_header() if list(view) else None):
             bad = f"header text {text!r} is not the serialisation {view.to_header()!r} of the changed view {list(view)!r}"
         if bad:
-            if not ri_before or not c08._ri(view):
+            if dup_before or ci_dup(view):
                 chk.fail("set-view-ci-duplicate", f"response.{attr} after {op!r}: {bad} (the view holds case-insensitive duplicates)", case)
             else:
                 chk.fail("set-view-drift", f"response.{attr} after {op!r}: {bad}", case)
